@@ -165,7 +165,9 @@ fn field_values() -> Vec<(&'static str, Vec<Box<dyn Fn(&mut FullCfg) + Send + Sy
         us("lpc_order", &[0, 1, 2, 12, 24, 25, 32, 33, 256 + 8, BIG, BIG + 8, usize::MAX], |c, x| c.lpc_order = x),
         us("precision", &[0, 1, 2, 8, 15, 16, 17, 32, 256 + 12, BIG + 12, usize::MAX], |c, x| c.precision = x),
         us("max_param", &[0, 1, 7, 14, 15, 16, 30, 31, 256, BIG + 14, usize::MAX], |c, x| c.max_param = x),
-        us("mae_steps", &[0, 1, 2, usize::MAX], |c, x| c.mae_steps = x),
+        // with the experimental estimator compiled in, the step count is a running time, not a range to
+        // verify: unbounded values are only meaningful where verification must reject them
+        us("mae_steps", if cfg!(feature = "experimental") { &[0, 1, 2] } else { &[0, 1, 2, usize::MAX] }, |c, x| c.mae_steps = x),
         us("workers", &[0, 1, 2, 3], |c, x| c.workers = x),
     ];
     let parts: Vec<Option<usize>> = vec![None, Some(0), Some(1), Some(2), Some(16), Some(64), Some(65), Some(128), Some(BIG + 16), Some(usize::MAX)];
